@@ -31,7 +31,9 @@ def gen_case(st, tier, env):
     w, k = st.workload, st.knobs
     fam = k.random()
     n_max = 6 if env == "present" else 7
-    if fam < 0.6:
+    if fam < 0.2:
+        ds = gen.gen_cyclic_blocks_dataset(w)  # several non-trivial components; each ILP stays small
+    elif fam < 0.6:
         ds = gen.gen_sparse_dataset(w, n_max=n_max)
     else:
         ds = gen.gen_dataset(w, n_max=n_max, m_max=6, n_min=2)
@@ -42,10 +44,12 @@ def gen_case(st, tier, env):
     pcs = []
     for _ in range(k.choice([2, 3, 4])):
         pcs.append({"alg": {"alg": "ParCons", "aux": dict(w.choice(gen.AUXILIARIES)),
-                            "bound": k.choice([0, 0, 1, 2, 3, 80])},
+                            "bound": k.choice([0, 0, 1, 2, 3, 3, 80])},
                     "sched": gen.gen_sched(st.schedule)})
     pcs.append({"alg": {"alg": "ParCons"}, "sched": gen.gen_sched(st.schedule)})
-    others = [{"alg": gen.gen_alg(w, env), "sched": gen.gen_sched(st.schedule)} for _ in range(2)]
+    n_univ = len({e for r in ds["rankings"] for b in r for e in b})
+    others = [{"alg": gen.gen_alg(w, env, heavy_ok=n_univ <= 6), "sched": gen.gen_sched(st.schedule)}
+              for _ in range(2)]
     return {"dataset": ds, "scheme": scheme, "parcons": pcs, "others": others}
 
 
